@@ -100,6 +100,36 @@ m = {
  "not_applicable": [],
  "notes": "check.sh exits 2 (no VIOLATION line) when the machinery cannot build or run. known_findings.json lists recorded defects and fixed ones."
 }
+
+# ---- additions of later rounds (appended to the texts above) ----
+RACE = " Supplementary, not deciding: the same harness bodies are run free-running (real goroutines, no scheduler installed) in a second build of the checker made with -race; every report of the race detector with a frame of mattn/anko is a violation (class race/...)."
+extra_text = {
+ "C01": " Round 7: goroutine programs that share only scopes, modules, function values and channels (interpreter-synchronised state) run free-running under the race detector (an unsynchronised access there ends in Go's unrecoverable 'concurrent map' fault)." + RACE,
+ "C02": " Round 7: cores in which one buffered channel has several takers (the loop body itself, a second goroutine), and deferring invocations (a function, the top level) that end with an explicit return.",
+ "C04": " Round 7: multi-name declarations 'var a, b = [v, w]' and 'var a, b = v, w' in the payload alphabet.",
+ "C05": " Round 7: operands that reach the operator as list elements (el[0] op el[1] and the mixed forms, full pool), and stores through the address of a variable holding a computed small integer followed by a recomputation (same and fresh environment).",
+ "C06": " Round 7: multi-case switch law: every ordered triple of a 33-value pool in four statement shapes (two cases, one case with two values, a value listed twice, a default between cases) must act as the implementation's own == says.",
+ "C07": " Round 7: literal-operands-twice space: every operator template alone and nested in every operand of every other one, one observable operand at a time with the others spelled as bare literals, the statement executed twice (the log of the second execution must equal the first).",
+ "C08": " Round 7: reswitch family: a switch with overlapping / duplicate cases executed for every ordered triple of subjects, in a loop body and in a function called per subject.",
+ "C09": " Round 7: failure kinds 'func() { break }()' / 'func() { continue }()' (a loop signal with no loop of its own invocation is a runtime error of the call; loops of the callers are not addressed) under every wrapper tuple that contains a loop.",
+ "C10": " Round 7: type-rebind phase: 12 container forms whose type expression names T x 12 ordered pairs of bindings of T x 3 re-evaluation forms (function called twice, loop body, closure) compared with freshly parsed straight-line programs.",
+ "C11": " Round 7: every single-call member op also as a DEFERRED call (inside a function, at the top level): the method must receive exactly the supplied arguments, spreading included.",
+ "C12": " Round 7: two more start states (a three-scope chain with a value and a type at its outer end; root > module > inner scope) and a Set of every name to its current value at every state (whatever a Set leaves behind in the implementation exists before the next step).",
+ "C13": RACE + " The free-running pass also covers the operations kept out of the linearizability alphabet (DefineGlobal, operations on the parent scope) and the chain family.",
+ "C14": " Round 7: import-result isolation: the result of an import expression written through directly, handed to a function, kept in a map / list, returned by a function, then read by a fresh environment." + RACE,
+ "C15": RACE,
+ "C16": RACE,
+ "C17": " Round 7: rewalk oracle (a fresh tree whose FIRST walk is aborted at call 1 / middle / last, then walked completely; a second complete walk of the same tree) and uneven multiple assignments / declarations in the shared grammar.",
+ "C18": " Round 7: bodies that look at the environment (defined() of an own name, load() of a second file that uses the loader's names) and shapes of the source text (a 70 000-character line, a 66 000-character comment, CRLF inside a raw string, CR-only line ends).",
+ "C19": " Round 7: freshness of returned containers (a = F(args); a[0] = a[1]; F(args) again in the same and in a fresh environment, for range / keys / toXSlice), and table functions without a generated reference judged by the symbol their code pointer belongs to.",
+ "C20": " Round 7: the Go-call hop counts its invocations: more calls than written occurrences means the operand was produced again (class ok-but-operand-produced-again).",
+}
+extra_tech = {k: "; supplementary free-running race-detector pass over the same harness bodies (sampling, reported separately)" for k in ("C01","C13","C14","C15","C16")}
+for k, v in extra_text.items():
+    checks[k]["text"] += v
+for k, v in extra_tech.items():
+    checks[k]["technique"] += v
+
 for pid in sorted(checks):
     c = checks[pid]
     m["checks"].append({
